@@ -1,8 +1,33 @@
-(* Property C17 - wallet-facing indexes match the main chain. *)
-From Virel Require Import Lib.Config Lib.U64 Lib.AMap Model.Ledger Model.Node Proofs.NodeBasics.
+(* Property C17 - wallet-facing indexes match the main chain: histories, tx heights, height index.
+   Statements only; proofs in Proofs/Paging.v, Proofs/Restart.v. *)
+From Virel Require Import Lib.Config Lib.U64 Lib.AMap Model.Ledger Model.Node Model.Paging
+  Proofs.NodeBasics Proofs.Paging Proofs.Restart.
 Open Scope N_scope.
+
+(* "every history page": for every history length n below 2^63 the pages served by get_tx_list partition the ids 1..n:
+   page 0 ends at n, the last page starts at 1, consecutive pages are adjacent, no page exceeds 25 entries, and a page
+   number beyond the last serves the last page *)
+Theorem C17_pages_partition : forall n, n < two63 ->
+  let mp := if 0 <? n then (n - 1) / page_size else 0 in
+  snd (fst (page_range n 0)) = n /\
+  fst (fst (page_range n mp)) = 1 /\
+  (forall p, p < mp -> fst (fst (page_range n p)) = snd (fst (page_range n (p + 1))) + 1) /\
+  (forall p, p <= mp -> snd (fst (page_range n p)) + 1 - fst (fst (page_range n p)) <= page_size) /\
+  (forall p, mp < p -> page_range n p = page_range n mp).
+Proof. exact pages_partition. Qed.
+Print Assumptions C17_pages_partition.
+
+(* the block served for a hash is the block that was accepted under that hash *)
+Theorem C17_accepted_block_served : forall cfg genesis_addr team_key n b now n' amb,
+  deliver cfg genesis_addr team_key n b now = (n', Accepted, amb) -> get_block n' (b_hash b) = Some b.
+Proof. exact accepted_is_stored. Qed.
+Print Assumptions C17_accepted_block_served.
 
 Theorem C17_rejected_unchanged : forall cfg genesis_addr team_key n b now n' c amb,
   deliver cfg genesis_addr team_key n b now = (n', Rejected c, amb) -> n' = n.
 Proof. exact deliver_rejected_unchanged. Qed.
 Print Assumptions C17_rejected_unchanged.
+
+(* NOT PROVED (stated): after any history the numbered incoming/outgoing histories list exactly the main-chain events,
+   tx heights are those of the containing main-chain block, and the height index links genesis to the tip.  These are
+   decided on the implementation's dumps against an independent replay of the chain content (Check/C17.v). *)
